@@ -54,7 +54,7 @@ func vfGenW(t *rapid.T) vfWCase {
 	if len(c.Seed)%4 != 0 {
 		c.Seed = c.Seed[:len(c.Seed)/4*4]
 	}
-	kinds := []string{"export", "export", "exportWrong", "import", "unlock", "unlock", "unlockWrong", "lock", "chpriv", "chprivWrong", "chpub", "chpubWrong", "get", "badLen"}
+	kinds := []string{"export", "export", "exportWrong", "exportBadPath", "importBadPath", "import", "unlock", "unlock", "unlockWrong", "lock", "chpriv", "chprivWrong", "chpub", "chpubWrong", "get", "badLen"}
 	n := rapid.IntRange(1, 7).Draw(t, "n")
 	slow := 0
 	for i := 0; i < n; i++ {
@@ -232,6 +232,18 @@ func vfWRun(c vfWCase, ctx *vlib.Ctx) *vlib.Failure {
 			} else if err == nil {
 				return vlib.Failf("api-export-with-wrong-passphrase", "%s", where)
 			}
+		case "exportBadPath":
+			// the right passphrase, but the file cannot be written (missing directory / the path is a file)
+			bad := filepath.Join(root, "no-such-dir", "deeper")
+			if oi%2 == 1 {
+				bad = filepath.Join(root, "a-file")
+				os.WriteFile(bad, []byte("x"), 0o644)
+			}
+			if _, err := s.ExportKeystore(bg, &pb.ExportKeystoreRequest{WalletId: wid, Passphrase: priv, ExportPath: bad}); err == nil {
+				return vlib.Failf("api-export-to-unwritable-path-succeeded", "%s: %s", where, bad)
+			}
+		case "importBadPath":
+			s.ImportKeystore(bg, &pb.ImportKeystoreRequest{ImportPath: filepath.Join(root, "missing.json"), OldPassphrase: priv, NewPassphrase: op.Pass})
 		case "import":
 			if exported == "" {
 				ctx.Label("import-without-export")
@@ -296,7 +308,7 @@ func vfWRun(c vfWCase, ctx *vlib.Ctx) *vlib.Failure {
 
 var vfWSpec = vlib.Spec[vfWCase]{
 	Prop: "C04", Name: "api-wallet-handlers", Scale: 0.2, Min: 8,
-	Rule: "a keystore created from a generated seed and passphrases on a real store; 1-7 wallet handler calls of api/wallets.go from {ExportKeystore (file + response), export with a wrong passphrase, ImportKeystore of the exported file, UnlockWallet (right/wrong), LockWallet, ChangePrivatePass / ChangePublicPass (right/wrong old passphrase), GetKeystore, requests with out-of-range lengths}, logging at debug level; oracle: the log directory, the export directory and the store files contain none of {seed, master / purpose / coin / account / branch extended private keys, their scalars, the first child scalars, every passphrase in force at some time} in raw, hex, base64 or Go %v (decimal list) form (scanner validated by a planted secret); non-trivial = at least one export to file and >=3 calls; distinct = distinct case JSON",
+	Rule: "a keystore created from a generated seed and passphrases on a real store; 1-7 wallet handler calls of api/wallets.go from {ExportKeystore (file + response), export with a wrong passphrase, export to a path that cannot be written, import of a missing file, ImportKeystore of the exported file, UnlockWallet (right/wrong), LockWallet, ChangePrivatePass / ChangePublicPass (right/wrong old passphrase), GetKeystore, requests with out-of-range lengths}, logging at debug level; oracle: the log directory, the export directory and the store files contain none of {seed, master / purpose / coin / account / branch extended private keys, their scalars, the first child scalars, every passphrase in force at some time} in raw, hex, base64 or Go %v (decimal list) form (scanner validated by a planted secret); non-trivial = at least one export to file and >=3 calls; distinct = distinct case JSON",
 	Gen:  vfGenW, Run: vfWRun,
 }
 
